@@ -11,6 +11,7 @@
    the callback (the C API can only create COMPRESS|ENCRYPT archives: Layers::DEFAULT).  The
    layer stack enters PART B through the per-call environment input `ioev`: what the
    callbacks reported while the call ran and, when they failed, in which phase. *)
+From MLA Require Import Limit.
 From MLA Require Import Base Stream Blocks Writer.
 Open Scope N_scope.
 
@@ -142,6 +143,7 @@ Definition sset {A} (l : slots A) (i : N) (v : option A) : slots A :=
   fun j => if j =? i then v else l j.
 
 Section CApi.
+  Context {LIM : Limit}.
   Variable FNMAX : N.
   Variables T_START T_CONTENT T_EOA T_EOF : N.
   Variable H : bytes -> bytes.
